@@ -292,6 +292,10 @@ pub enum Op {
     KillAfter { to: u8, ms: u16, #[serde(default)] us: u16 },
     AbortTimer(u8),
     AwaitTimer(u8),
+    /// output port (C16): publish number `n`
+    PortPub(u32),
+    /// subscribe actor `who` with converter `conv` (skips n when conv < 3 and (n + conv) % 3 == 0)
+    PortSub { who: u8, conv: u8 },
 }
 
 // ---------------------------------------------------------------------------------
@@ -351,7 +355,15 @@ pub enum TimerH {
 
 pub const TIMER_SENDER_BASE: u16 = 2000;
 
+#[derive(Clone)]
+pub struct PMsg(pub u32);
+impl ractor::Message for PMsg {}
+
+pub const PORT_SENDER_BASE: u16 = 100;
+
 pub struct World {
+    pub port: Mutex<Option<Arc<ractor::OutputPort<PMsg>>>>,
+    pub subs: Mutex<u16>,
     pub timers: Mutex<Vec<TimerH>>,
     pub prefix: String,
     pub specs: Vec<ActorSpec>,
@@ -367,6 +379,8 @@ impl World {
         let n = CASE_NO.fetch_add(1, Ordering::Relaxed);
         let slots = (0..specs.len()).map(|_| Slot::default()).collect();
         Arc::new(World {
+            port: Mutex::new(None),
+            subs: Mutex::new(0),
             timers: Mutex::new(vec![]),
             prefix: format!("v{}_{}_", std::process::id(), n),
             specs,
@@ -1255,6 +1269,30 @@ pub async fn exec_op(w: &Arc<World>, c: usize, i: usize, op: &Op) -> Res {
                 },
                 TimerH::Taken => Res::Skipped,
             }
+        }
+        Op::PortPub(n) => {
+            let port = w.port.lock().unwrap().get_or_insert_with(|| Arc::new(ractor::OutputPort::default())).clone();
+            port.send(PMsg(*n));
+            Res::Unit
+        }
+        Op::PortSub { who, conv } => {
+            let cell = cell!(who);
+            let port = w.port.lock().unwrap().get_or_insert_with(|| Arc::new(ractor::OutputPort::default())).clone();
+            let sid = {
+                let mut g = w.subs.lock().unwrap();
+                let s = *g;
+                *g += 1;
+                s
+            };
+            let conv = *conv;
+            port.subscribe(cell, move |m: PMsg| {
+                if conv < 3 && (m.0 + conv as u32) % 3 == 0 {
+                    None
+                } else {
+                    Some(Msg::Num { sender: PORT_SENDER_BASE + sid, seq: m.0 })
+                }
+            });
+            Res::Found(sid as i64)
         }
         Op::Yield => {
             yield_once().await;
